@@ -295,6 +295,7 @@ fn gen(thorough: bool) -> impl Fn(&mut EnumCtx) + Sync {
         }
         // three segments in every order
         let sh3 = shapes.clone();
+        let mut n3 = 0usize;
         for s0 in SLOTS {
             for s1 in SLOTS {
                 for s2 in SLOTS {
@@ -304,7 +305,10 @@ fn gen(thorough: bool) -> impl Fn(&mut EnumCtx) + Sync {
                     for a in &sh3 {
                         for b in &sh3 {
                             for c in &sh3 {
-                                run(e, vec![(s0, *a, 5), (s1, *b, 4), (s2, *c, 6)], true);
+                                // flag masks rotate with the shapes so that every position sees every mask
+                                let fl = [(5u32, 4u32, 6u32), (6, 5, 4), (4, 6, 5), (7, 1, 2), (2, 3, 1)][n3 % 5];
+                                n3 += 1;
+                                run(e, vec![(s0, *a, fl.0), (s1, *b, fl.1), (s2, *c, fl.2)], true);
                             }
                         }
                     }
@@ -326,7 +330,9 @@ fn gen(thorough: bool) -> impl Fn(&mut EnumCtx) + Sync {
                                 for b in &sh4 {
                                     for c in &sh4 {
                                         for d in &sh4 {
-                                            run(e, vec![(s0, *a, 5), (s1, *b, 4), (s2, *c, 6), (s3, *d, 7)], true);
+                                            let fl = [(5u32, 4u32, 6u32, 7u32), (7, 5, 4, 6), (6, 7, 5, 4), (4, 6, 7, 5), (1, 2, 3, 0)][n3 % 5];
+                                            n3 += 1;
+                                            run(e, vec![(s0, *a, fl.0), (s1, *b, fl.1), (s2, *c, fl.2), (s3, *d, fl.3)], true);
                                         }
                                     }
                                 }
